@@ -1,5 +1,5 @@
 (** C05 — Encrypted filespace: round-trip, secrecy, integrity, no crash on bad data.
-    Statements only; every proof is [exact <lemma of Proofs/Enc.v>].
+    Statements only; every proof is [exact <lemma of Proofs/Enc.v or Proofs/EncMore.v>].
 
     The primitives (AES-256-GCM seal/open, SHA3-256 hash, the host id) are universally quantified;
     what is assumed about them appears as premises:
@@ -9,7 +9,7 @@
       H5 aead_separated  a sealed message opens only under its own key and (12-byte) nonce
       H3                 hash injective on the two key materials compared (premise of C05_wrong_key)
     [toy_seal]/[toy_open] satisfy H1, H2, H4, H5 (C05_premises_satisfiable), so no theorem is vacuous. *)
-From GC Require Import Common.Base Model.Enc Proofs.Enc.
+From GC Require Import Common.Base Model.Enc Model.EncMore Proofs.Enc Proofs.EncMore.
 From Coq Require Import ZArith.
 
 (** Whatever is written (whole file, or stream in any chunking), with any settings, either cipher,
@@ -211,6 +211,201 @@ Theorem C05_premises_satisfiable :
 Proof. exact (conj toy_H1 (conj toy_H2 (conj toy_H4 toy_H5))). Qed.
 Print Assumptions C05_premises_satisfiable.
 
+(** * Second group (proof audit): histories, every single-byte corruption, the exact reach of
+      "another secret or salt", host binding, faulty base streams, and two negative results.
+    Definitions: Model/EncMore.v; proofs: Proofs/EncMore.v.  One more premise:
+      H6 aead_dist2   two sealed messages under one key and nonce never differ in exactly one byte
+                      (for AES-GCM: true for every key whose hash subkey is not zero). *)
+
+(** Round trip over ALL histories.  The base is shared by any number of encrypted filespaces
+    (every write/read names its own cipher and settings) and by name-space operations.  After ANY
+    prefix h1 (overwrites of p with longer or shorter data, through either path, by any settings,
+    with any nonces, included), a write at p, and any operations h2 that leave the stored bytes at p
+    alone (writes elsewhere by anyone, reads of anything -- failed ones too --, name-space
+    operations that do not reach p), a read at p through either path gives exactly what was
+    written.  Supersedes C05_roundtrip (the case h1 = h2 = []). *)
+Theorem C05_roundtrip_history :
+  forall key seal open (hash : bytes -> key) hostid nsop nsres
+         (base_ns : nsop -> (path -> option bytes) -> nsres * (path -> option bytes)),
+  aead_correct seal open ->
+  forall (h1 h2 : list (eop nsop)) rp c s n p w (st : fsst),
+    length n = NONCE_SIZE -> Forall (quiet nsop nsres base_ns p) h2 ->
+    fst (fs_read key open hash hostid rp c s
+           (erun key seal open hash hostid nsop nsres base_ns (h1 ++ EWrite nsop c s n p w :: h2) st) p)
+    = Ok (wreq_data w).
+Proof. exact roundtrip_history. Qed.
+Print Assumptions C05_roundtrip_history.
+
+(** The same with the read as one more operation of the history: the entry of the trace of
+    answers that belongs to it. *)
+Theorem C05_roundtrip_trace :
+  forall key seal open (hash : bytes -> key) hostid nsop nsres
+         (base_ns : nsop -> (path -> option bytes) -> nsres * (path -> option bytes)),
+  aead_correct seal open ->
+  forall (h1 h2 h3 : list (eop nsop)) rp c s n p w (st : fsst),
+    length n = NONCE_SIZE -> Forall (quiet nsop nsres base_ns p) h2 ->
+    let h := h1 ++ EWrite nsop c s n p w :: h2 in
+    nth (length (etrace key seal open hash hostid nsop nsres base_ns h st))
+        (etrace key seal open hash hostid nsop nsres base_ns (h ++ ERead nsop rp c s p :: h3) st) Panic
+    = Ok (wreq_data w).
+Proof. exact roundtrip_trace. Qed.
+Print Assumptions C05_roundtrip_trace.
+
+(** No read of any history panics, and no history changes the number of open handles of the
+    base (no premise about the primitives, none about the base). *)
+Theorem C05_no_panic_history :
+  forall key seal open (hash : bytes -> key) hostid nsop nsres
+         (base_ns : nsop -> (path -> option bytes) -> nsres * (path -> option bytes))
+         (h : list (eop nsop)) (st : fsst),
+    Forall (fun r => r <> Panic) (etrace key seal open hash hostid nsop nsres base_ns h st).
+Proof. exact etrace_no_panic. Qed.
+Print Assumptions C05_no_panic_history.
+
+Theorem C05_no_leak_history :
+  forall key seal open (hash : bytes -> key) hostid nsop nsres
+         (base_ns : nsop -> (path -> option bytes) -> nsres * (path -> option bytes))
+         (h : list (eop nsop)) (st : fsst),
+    handles (erun key seal open hash hostid nsop nsres base_ns h st) = handles st.
+Proof. exact erun_handles. Qed.
+Print Assumptions C05_no_leak_history.
+
+(** EVERY single-byte corruption of a stored value -- any position (cipher tag, nonce,
+    ciphertext, GCM tag), any other byte value, either cipher, either write path and chunking,
+    either read path -- is answered Err.  Supersedes C05_tamper_byte (whose conclusion is only
+    "not the original data", and only for the sealed part) and joins it with C05_tamper_tag /
+    C05_tamper_nonce. *)
+Theorem C05_corrupt_any_byte :
+  forall key seal open (hash : bytes -> key),
+  aead_ideal seal open -> aead_separated seal open -> aead_dist2 seal ->
+  forall rp c km n w i b,
+    length n = NONCE_SIZE ->
+    (i < length (store key seal hash c km n w))%nat -> b <> nth i (store key seal hash c km n w) 0 ->
+    read_stored key open hash rp c km (set_nth i b (store key seal hash c km n w)) = Err.
+Proof. exact corrupt_any_byte. Qed.
+Print Assumptions C05_corrupt_any_byte.
+
+(** ... at the filespace level, after any history: the base holds exactly the stored value, and
+    with one byte of it changed behind the filespace's back the read is an error. *)
+Theorem C05_corrupt_any_byte_fs :
+  forall key seal open (hash : bytes -> key) hostid nsop nsres
+         (base_ns : nsop -> (path -> option bytes) -> nsres * (path -> option bytes)),
+  aead_ideal seal open -> aead_separated seal open -> aead_dist2 seal ->
+  forall (h1 h2 : list (eop nsop)) rp c s n p w (st : fsst) i b,
+    let st1 := erun key seal open hash hostid nsop nsres base_ns (h1 ++ EWrite nsop c s n p w :: h2) st in
+    let d := store key seal hash c (keymat hostid s) n w in
+    length n = NONCE_SIZE -> Forall (quiet nsop nsres base_ns p) h2 ->
+    (i < length d)%nat -> b <> nth i d 0 ->
+    files st1 p = Some d /\
+    fst (fs_read key open hash hostid rp c s
+           {| files := upd (files st1) p (set_nth i b d); handles := handles st1 |} p) = Err.
+Proof. exact corrupt_any_byte_fs. Qed.
+Print Assumptions C05_corrupt_any_byte_fs.
+
+(** Another secret or salt, EXACTLY: data written under s1 and read under s2 is answered with the
+    data when the two key materials are the same byte string and with Err otherwise (H3 for the
+    pair).  Supersedes C05_wrong_key (the else branch) and C05_F30_refuted (an instance of the
+    then branch). *)
+Theorem C05_cross_read_exact :
+  forall key seal open (hash : bytes -> key) hostid,
+  aead_correct seal open -> aead_separated seal open ->
+  forall rp c s1 s2 n (st : fsst) p w,
+    length n = NONCE_SIZE ->
+    (hash (keymat hostid s1) = hash (keymat hostid s2) -> keymat hostid s1 = keymat hostid s2) ->
+    fst (fs_read key open hash hostid rp c s2 (fs_write key seal hash hostid c s1 n st p w) p)
+    = if bytes_eqb (keymat hostid s1) (keymat hostid s2) then Ok (wreq_data w) else Err.
+Proof. exact cross_read_exact. Qed.
+Print Assumptions C05_cross_read_exact.
+
+(** The clause as the property words it -- another secret OR salt => error -- for every pair of
+    settings except those of the shape of F30: it is enough that the two secrets, or the two
+    salts, have the same length (in particular: only one of the two was changed). *)
+Theorem C05_wrong_secret_or_salt :
+  forall key seal open (hash : bytes -> key) hostid, aead_separated seal open ->
+  forall rp c s1 s2 n (st : fsst) p w,
+    length n = NONCE_SIZE ->
+    hostonly s1 = hostonly s2 ->
+    length (secret s1) = length (secret s2) \/ length (salt s1) = length (salt s2) ->
+    other_secret_or_salt s1 s2 ->
+    (hash (keymat hostid s1) = hash (keymat hostid s2) -> keymat hostid s1 = keymat hostid s2) ->
+    fst (fs_read key open hash hostid rp c s2 (fs_write key seal hash hostid c s1 n st p w) p) = Err.
+Proof. exact wrong_secret_or_salt. Qed.
+Print Assumptions C05_wrong_secret_or_salt.
+
+(** ... and it stays an error after any history that leaves p alone. *)
+Theorem C05_wrong_key_history :
+  forall key seal open (hash : bytes -> key) hostid nsop nsres
+         (base_ns : nsop -> (path -> option bytes) -> nsres * (path -> option bytes)),
+  aead_separated seal open ->
+  forall (h1 h2 : list (eop nsop)) rp c s1 s2 n p w (st : fsst),
+    length n = NONCE_SIZE -> Forall (quiet nsop nsres base_ns p) h2 ->
+    keymat hostid s1 <> keymat hostid s2 ->
+    (hash (keymat hostid s1) = hash (keymat hostid s2) -> keymat hostid s1 = keymat hostid s2) ->
+    fst (fs_read key open hash hostid rp c s2
+           (erun key seal open hash hostid nsop nsres base_ns (h1 ++ EWrite nsop c s1 n p w :: h2) st) p) = Err.
+Proof. exact wrong_key_history. Qed.
+Print Assumptions C05_wrong_key_history.
+
+(** Host binding: with a non-empty host id, the same secret and salt with the other HostOnly
+    setting cannot read the data ... *)
+Theorem C05_wrong_host_binding :
+  forall key seal open (hash : bytes -> key) hostid, aead_separated seal open ->
+  forall rp c s1 s2 n (st : fsst) p w,
+    length n = NONCE_SIZE ->
+    secret s1 = secret s2 -> salt s1 = salt s2 -> hostonly s1 <> hostonly s2 -> hostid <> [] ->
+    (hash (keymat hostid s1) = hash (keymat hostid s2) -> keymat hostid s1 = keymat hostid s2) ->
+    fst (fs_read key open hash hostid rp c s2 (fs_write key seal hash hostid c s1 n st p w) p) = Err.
+Proof. exact wrong_host_binding. Qed.
+Print Assumptions C05_wrong_host_binding.
+
+(** ... and with the empty host id -- what idutil.HostID() returns in the current tree, where
+    the named result shadows the package variable -- HostOnly binds nothing: whatever the two
+    HostOnly settings are, the data is read back. *)
+Theorem C05_host_binding_void_refuted :
+  forall key seal open (hash : bytes -> key), aead_correct seal open ->
+  forall rp c s1 s2 n (st : fsst) p w,
+    length n = NONCE_SIZE -> secret s1 = secret s2 -> salt s1 = salt s2 ->
+    fst (fs_read key open hash [] rp c s2 (fs_write key seal hash [] c s1 n st p w) p) = Ok (wreq_data w).
+Proof. exact host_binding_void. Qed.
+Print Assumptions C05_host_binding_void_refuted.
+
+(** The stream reader on ANY base stream: a stream that ends in an I/O error, or whose Close
+    fails, is answered Err (never data); otherwise the answer is Decrypt of the bytes.
+    Supersedes C05_no_panic_faulty_stream. *)
+Theorem C05_stream_reader_spec :
+  forall key open (hash : bytes -> key) c km (st : stream),
+    fst (decrypt_reader key open hash c km st)
+    = if s_fail st || s_close_err st then Err else decrypt key open hash c km (s_data st).
+Proof. exact decrypt_reader_spec_c. Qed.
+Print Assumptions C05_stream_reader_spec.
+
+Theorem C05_faulty_stream_err :
+  forall key open (hash : bytes -> key) c km (st : stream),
+    s_fail st = true \/ s_close_err st = true -> fst (decrypt_reader key open hash c km st) = Err.
+Proof. exact faulty_stream_err_c. Qed.
+Print Assumptions C05_faulty_stream_err.
+
+(** NEGATIVE: the truncation clause without the no-forgery premise of C05_tamper_trunc is false,
+    even under all six premises: for a plaintext that ends in the 16 bytes the primitive appends
+    to its own front part, the stored value cut after them is answered with the front part.
+    (Scenario run against the real AES-GCM code with a fixed nonce source: see DESIGN.md.) *)
+Theorem C05_trunc_unconditional_refuted :
+  ~ (forall key seal open (hash : bytes -> key),
+       aead_correct seal open -> aead_ideal seal open -> aead_len seal -> aead_separated seal open -> aead_dist2 seal ->
+       forall rp c km n p m, length n = NONCE_SIZE -> (m < length (encrypt key seal hash c km n p))%nat ->
+         read_stored key open hash rp c km (firstn m (encrypt key seal hash c km n p)) = Err).
+Proof. exact trunc_unconditional_refuted. Qed.
+Print Assumptions C05_trunc_unconditional_refuted.
+
+(** NEGATIVE: secrecy does not follow from H1, H2, H4, H5, H6 -- the toy AEAD meets all of them
+    (so the premises, H6 included, are jointly satisfiable) and keeps the plaintext in the stored
+    bytes.  The secrecy clause therefore stays with the oracles on the real AES-GCM. *)
+Theorem C05_secrecy_not_implied_by_premises :
+  aead_correct toy_seal toy_open /\ aead_ideal toy_seal toy_open /\ aead_len toy_seal /\
+  aead_separated toy_seal toy_open /\ aead_dist2 toy_seal /\
+  forall c km n w, exists a b, store N toy_seal toy_hash c km n w = a ++ wreq_data w ++ b.
+Proof. exact secrecy_not_implied. Qed.
+Print Assumptions C05_secrecy_not_implied_by_premises.
+
 (** * Non-vacuity: concrete values meeting the premises of each implication. *)
 Definition ex_n : nonce := [1; 2; 3; 4; 5; 6; 7; 8; 9; 10; 11; 12].
 Definition ex_s : settings := {| secret := [115; 51]; salt := [120]; hostonly := true |}.
@@ -272,3 +467,83 @@ Example ex_no_leak :
 Proof. vm_compute. split; reflexivity. Qed.
 Example ex_fresh : ex_n <> pad12 [9] /\ length (pad12 [9]) = NONCE_SIZE.
 Proof. vm_compute. split; [discriminate|reflexivity]. Qed.
+
+(** * Non-vacuity of the second group. *)
+(* a base with one name-space operation: remove the file at a path *)
+Definition ex_rm (q : path) (f : path -> option bytes) : unit * (path -> option bytes) :=
+  (tt, fun x => if bytes_eqb x q then None else f x).
+Definition ex_h1 : list (eop path) :=
+  [EWrite path Raw ex_s' (pad12 [7]) [97] (WriteFile [1; 2; 3; 4; 5; 6; 7; 8; 9]);   (* another filespace, longer data, same path *)
+   ENs path [97];
+   EWrite path Tagged ex_s (pad12 [6]) [97] (WriteStream [[1]; [2; 3]])].
+Definition ex_h2 : list (eop path) :=
+  [EWrite path Tagged ex_s' (pad12 [8]) [98] ex_w;    (* another filespace writes elsewhere *)
+   ERead path RFile Tagged ex_s' [97];                (* and fails to read our file *)
+   ENs path [99]; ENs path [98]].
+(* premises of C05_roundtrip_history / _trace / C05_wrong_key_history: h2 is quiet at the path;
+   the trace of the whole history on the toy instance *)
+Example ex_history_quiet : Forall (quiet path unit ex_rm [97]) ex_h2.
+Proof.
+  repeat constructor; cbn [quiet]; try discriminate; intros f; reflexivity.
+Qed.
+Example ex_history_trace :
+  etrace N toy_seal toy_open toy_hash [] path unit ex_rm
+    (ex_h1 ++ EWrite path Tagged ex_s ex_n [97] ex_w :: ex_h2 ++ [ERead path RStream Tagged ex_s [97]; ERead path RFile Tagged ex_s [98]]) ex_st
+  = [Err; Ok [104; 105; 33; 200; 0]; Err] /\
+  handles (erun N toy_seal toy_open toy_hash [] path unit ex_rm (ex_h1 ++ EWrite path Tagged ex_s ex_n [97] ex_w :: ex_h2) ex_st) = 3%nat.
+Proof. vm_compute. split; reflexivity. Qed.
+
+(* premises of C05_corrupt_any_byte(_fs): every position of a stored value (37 resp. 33 bytes),
+   the byte there replaced by three other values; the model answers Err on each *)
+Example ex_corrupt_all_positions :
+  forallb (fun c =>
+    let d := store N toy_seal toy_hash c ex_km ex_n ex_w in
+    forallb (fun i => forallb (fun delta =>
+      let b := nth i d 0 + delta in
+      Nat.ltb i (length d) && negb (N.eqb b (nth i d 0)) &&
+      match read_stored N toy_open toy_hash RStream c ex_km (set_nth i b d) with Err => true | _ => false end)
+      [1; 128; 255]) (seq 0 (length d))) [Raw; Tagged] = true.
+Proof. vm_compute. reflexivity. Qed.
+
+(* premises of C05_cross_read_exact / C05_wrong_secret_or_salt: only the salt differs, same
+   lengths, the hash separates the two key materials *)
+Example ex_wrong_secret_or_salt :
+  hostonly ex_s = hostonly ex_s' /\ length (secret ex_s) = length (secret ex_s') /\
+  other_secret_or_salt ex_s ex_s' /\
+  (toy_hash (keymat [] ex_s) = toy_hash (keymat [] ex_s') -> keymat [] ex_s = keymat [] ex_s') /\
+  bytes_eqb (keymat [] ex_s) (keymat [] ex_s') = false /\ bytes_eqb (keymat [] f30_s1) (keymat [] f30_s2) = true.
+Proof.
+  split; [reflexivity|]. split; [reflexivity|]. split; [right; discriminate|].
+  split; [vm_compute; discriminate|]. split; reflexivity.
+Qed.
+
+(* premises of C05_wrong_host_binding (a host id of one byte) and of C05_host_binding_void_refuted *)
+Definition ex_s_nohost : settings := {| secret := [115; 51]; salt := [120]; hostonly := false |}.
+Example ex_host_binding :
+  hostonly ex_s <> hostonly ex_s_nohost /\ [9] <> @nil byte /\
+  (toy_hash (keymat [9] ex_s) = toy_hash (keymat [9] ex_s_nohost) -> keymat [9] ex_s = keymat [9] ex_s_nohost) /\
+  fst (fs_read N toy_open toy_hash [9] RFile Tagged ex_s_nohost (fs_write N toy_seal toy_hash [9] Tagged ex_s ex_n ex_st [97] ex_w) [97]) = Err /\
+  fst (fs_read N toy_open toy_hash [] RFile Tagged ex_s_nohost (fs_write N toy_seal toy_hash [] Tagged ex_s ex_n ex_st [97] ex_w) [97])
+  = Ok [104; 105; 33; 200; 0].
+Proof.
+  split; [discriminate|]. split; [discriminate|]. split; [vm_compute; discriminate|].
+  split; vm_compute; reflexivity.
+Qed.
+
+(* premise of C05_faulty_stream_err: a well-formed stored value on a stream whose end is an I/O
+   error, resp. whose Close fails *)
+Example ex_faulty_stream :
+  let r1 := decrypt_reader N toy_open toy_hash Tagged ex_km {| s_data := ex_stored; s_fail := true; s_close_err := false; s_closes := 0 |} in
+  let r2 := decrypt_reader N toy_open toy_hash Raw ex_km {| s_data := skipn 4 ex_stored; s_fail := false; s_close_err := true; s_closes := 0 |} in
+  let r3 := decrypt_reader N toy_open toy_hash Raw ex_km (mkstream (skipn 4 ex_stored)) in
+  fst r1 = Err /\ s_closes (snd r1) = 1%nat /\ fst r2 = Err /\ s_closes (snd r2) = 1%nat /\ fst r3 = Ok [104; 105; 33; 200; 0].
+Proof. vm_compute. repeat split; reflexivity. Qed.
+
+(* the witness of C05_trunc_unconditional_refuted, all four cipher / read-path combinations *)
+Example ex_trunc_refuted :
+  forall rp c,
+    let s := encrypt N toy_seal toy_hash c trunc_km trunc_n trunc_p in
+    let m := (length (header c) + NONCE_SIZE + length trunc_front + OVERHEAD)%nat in
+    (m < length s)%nat /\ trunc_front <> trunc_p /\
+    read_stored N toy_open toy_hash rp c trunc_km (firstn m s) = Ok trunc_front.
+Proof. exact trunc_refuted_witness. Qed.
